@@ -1212,7 +1212,17 @@ class _Builder:
             # in-place concatenation of a list the function allocated: xs.extend(ys)
             p.events.append(self.E("expr", st.lineno, ("call", ("attr", cur, "extend"), (self.ex(st.value, p),), ())))
             return [p]
-        v = ("bin", BINOPS.get(type(st.op), "?"), cur, self.ex(st.value, p))
+        raw = self.ex(st.value, p)
+        inl = self.inline_call(raw, p, st.lineno) if op(raw) == "call" else None
+        if inl is not None:
+            # x op= helper(..): the helper runs in place, its value is combined afterwards
+            out = []
+            for q, val in inl:
+                if val is not None and q.out is None:
+                    self.assign(st.target, ("bin", BINOPS.get(type(st.op), "?"), cur, val), q, st.lineno)
+                out.append(q)
+            return out
+        v = ("bin", BINOPS.get(type(st.op), "?"), cur, raw)
         self.assign(st.target, v, p, st.lineno)
         return [p]
 
